@@ -230,6 +230,11 @@ type Prop[C any] struct {
 	Cases int
 	// Samples to keep in evidence (default 4).
 	Samples int
+	// MaxRate bounds, per finding class, the fraction of generated cases that may fall back on the class
+	// exclusion (i.e. fail inside the recorded class). The classes are carved out by input predicates, but a
+	// change that makes many more inputs of a class fail is still a regression: exceeding the bound (set
+	// several times above the rate measured on the unchanged tree) is reported as a violation.
+	MaxRate map[string]float64
 }
 
 // SafeCheck runs p.Check converting a panic into an error.
@@ -364,16 +369,32 @@ func Run[C any](t *testing.T, p Prop[C]) {
 			t.Logf("VIOLATION-CANDIDATE %s/%s replay=%s", propID, p.Sub, path)
 		}
 	}()
+	var firstExcluded = map[string]any{}
 	rapid.Check(t, func(rt *rapid.T) {
 		c := p.Gen(rt)
 		r := &R{}
 		err := p.SafeCheck(c, r)
 		p.account(c, r, st)
+		for _, id := range r.excluded {
+			if _, ok := firstExcluded[id]; !ok {
+				firstExcluded[id] = c
+			}
+		}
 		if err != nil {
 			last = &failure{c, err}
 			rt.Fatalf("%s/%s: %v", propID, p.Sub, err)
 		}
 	})
+	for id, max := range p.MaxRate {
+		mu.Lock()
+		n, tot := st.Excluded[id], st.Evaluations
+		mu.Unlock()
+		if tot >= 200 && float64(n) > max*float64(tot) && n >= 5 {
+			err := fmt.Errorf("failures inside finding class %s rose to %d of %d generated cases (%.2f%%), bound %.2f%%: the class is failing far more often than on the recorded tree", id, n, tot, 100*float64(n)/float64(tot), 100*max)
+			recordViolation(p.Sub, "rate of finding class "+id, map[string]any{"class": id, "excluded": n, "evaluations": tot, "example": firstExcluded[id]}, err)
+			t.Errorf("%v", err)
+		}
+	}
 }
 
 func decodeCase[C any](raw json.RawMessage) (C, error) {
